@@ -102,9 +102,36 @@ type siteRig struct {
 	scripts map[string]*pscript
 	parkSeq int
 	static  map[string][]byte
+	frags   []logFrag
+	hasTemplates bool
+	errVisible   bool
 }
 
-const siteLogFormat = `R={>X-Req} S={status} Z={size} M={method} U={uri} E={>X-Evil} Q={?q} C={~ck} L=\{lit\} N={nosuch} H={host}`
+// logFrag is one piece of a generated log format and how to compute what it must expand to.
+type logFrag struct {
+	name, text string
+	eval       func(q *sreq, uri, evil, qv, ck string) string
+}
+
+var logFrags = []logFrag{
+	{"S", `S={status}`, func(q *sreq, _, _, _, _ string) string { return fmt.Sprintf("S=%d", q.resp.Status) }},
+	{"Z", `Z={size}`, func(q *sreq, _, _, _, _ string) string { return fmt.Sprintf("Z=%d", len(q.resp.Body)) }},
+	{"M", `M={method}`, func(q *sreq, _, _, _, _ string) string { return "M=" + q.method }},
+	{"U", `U={uri}`, func(q *sreq, uri, _, _, _ string) string { return "U=" + uri }},
+	{"E", `E={>X-Evil}`, func(q *sreq, _, evil, _, _ string) string { return "E=" + evil }},
+	{"Q", `Q={?q}`, func(q *sreq, _, _, qv, _ string) string { return "Q=" + qv }},
+	{"C", `C={~ck}`, func(q *sreq, _, _, _, ck string) string { return "C=" + ck }},
+	{"L", `L=\{lit\}`, func(*sreq, string, string, string, string) string { return "L={lit}" }},
+	{"N", `N={nosuch}`, func(*sreq, string, string, string, string) string { return "N=-" }},
+	{"H", `H={host}`, func(*sreq, string, string, string, string) string { return "H=s.test" }},
+	// escaped braces right next to placeholders
+	{"J", `J=\{{status}\}`, func(q *sreq, _, _, _, _ string) string { return fmt.Sprintf("J={%d}", q.resp.Status) }},
+	{"K", `K=\{'s': {status}, 'z': {size}\}`, func(q *sreq, _, _, _, _ string) string {
+		return fmt.Sprintf("K={'s': %d, 'z': %d}", q.resp.Status, len(q.resp.Body))
+	}},
+	{"B", `B=\{\}{method}\{`, func(q *sreq, _, _, _, _ string) string { return "B={}" + q.method + "{" }},
+	{"D", `D={method}{status}`, func(q *sreq, _, _, _, _ string) string { return fmt.Sprintf("D=%s%d", q.method, q.resp.Status) }},
+}
 
 var evilValues = []string{"plain", "{host}", "{>X-Req}", "{status}", `\{`, "}", "{", "{~ck}", "{?q}", "{{host}}", "{>X-Evil}", "a{b}c", `\}`, "{nosuch}", "%7Bhost%7D"}
 
@@ -209,6 +236,10 @@ func (r *siteRig) probe(label string, next httpserver.Handler, w http.ResponseWr
 	if sc.panicAt == len(writes) && len(writes) > 0 {
 		c.Fault("handler-panic-after-write")
 		panic("sim: scripted handler panic after all writes")
+	}
+	if sc.retErr {
+		// wrote its response and reports an error for the log (as fastcgi does for stderr output)
+		return 0, fmt.Errorf("sim: handler error after writing for %s", id)
 	}
 	return 0, nil
 }
@@ -361,6 +392,23 @@ func runSite(mode string) sim.RigFunc {
 		if r.hasLog && pick(40) {
 			r.logExcept = "/p/quiet"
 		}
+		// the log format of this run: the request id first, then a random arrangement of fragments
+		perm := make([]int, len(logFrags))
+		for i := range perm {
+			perm[i] = i
+		}
+		for i := len(perm) - 1; i > 0; i-- {
+			j := st.Draw(i + 1)
+			perm[i], perm[j] = perm[j], perm[i]
+		}
+		nf := 4 + st.Draw(len(perm)-3)
+		logFormat := "R={>X-Req}"
+		for _, i := range perm[:nf] {
+			r.frags = append(r.frags, logFrags[i])
+			logFormat += " " + logFrags[i].text
+		}
+		r.hasTemplates = mode != "C18" && pick(25)
+		r.errVisible = r.hasErrors && !r.hasGzip && pick(20)
 		siteText := func(host string, twin bool) string {
 			var b strings.Builder
 			fmt.Fprintf(&b, "http://%s:0 {\n\tbind 127.0.0.1\n\tsimnet v0\n\troot %s\n", host, r.root)
@@ -375,7 +423,7 @@ func runSite(mode string) sim.RigFunc {
 				b.WriteString("\trequest_id\n")
 			}
 			if r.hasLog && !twin {
-				fmt.Fprintf(&b, "\tlog / %s \"%s\" {\n\t\trotate_disable\n", r.logFile, siteLogFormat)
+				fmt.Fprintf(&b, "\tlog / %s \"%s\" {\n\t\trotate_disable\n", r.logFile, logFormat)
 				if r.logExcept != "" {
 					fmt.Fprintf(&b, "\t\texcept %s\n", r.logExcept)
 				}
@@ -402,7 +450,13 @@ func runSite(mode string) sim.RigFunc {
 				if twin {
 					ef += ".twin"
 				}
-				fmt.Fprintf(&b, "\terrors %s {\n\t\trotate_disable\n", ef)
+				if r.errVisible {
+					ef = "visible"
+				}
+				fmt.Fprintf(&b, "\terrors %s {\n", ef)
+				if !r.errVisible {
+					b.WriteString("\t\trotate_disable\n")
+				}
 				for _, code := range []int{404, 500} {
 					if _, ok := r.errPages[code]; ok {
 						fmt.Fprintf(&b, "\t\t%d err%d.html\n", code, code)
@@ -425,10 +479,13 @@ func runSite(mode string) sim.RigFunc {
 			if r.hasInternal {
 				b.WriteString("\tinternal /secret\n")
 			}
+			if r.hasTemplates {
+				b.WriteString("\ttemplates /p\n")
+			}
 			b.WriteString("\tprobe " + host[:1] + "\n}\n")
 			return b.String()
 		}
-		if r.hasErrors {
+		if r.hasErrors && !r.errVisible {
 			if pick(50) {
 				r.errPages[404] = "<html>CUSTOM-404-PAGE</html>\n"
 			}
@@ -444,7 +501,7 @@ func runSite(mode string) sim.RigFunc {
 			text += siteText("t.test", true)
 		}
 		c.Params["directives"] = fmt.Sprintf("log=%v gzip=%v(level %d,min %d,not %q) errors=%v pages=%d header=%v status=%v mime=%v request_id=%v internal=%v auth=%v limit=%d/%d",
-			r.hasLog, r.hasGzip, r.gzLevel, r.gzMin, r.gzNot, r.hasErrors, len(r.errPages), r.hasHeader, r.hasStatus, r.hasMime, r.hasReqID, r.hasInternal, r.hasAuth, r.limit, r.limitSub)
+			r.hasLog, r.hasGzip, r.gzLevel, r.gzMin, r.gzNot, fmt.Sprintf("%v(visible=%v,templates=%v)", r.hasErrors, r.errVisible, r.hasTemplates), len(r.errPages), r.hasHeader, r.hasStatus, r.hasMime, r.hasReqID, r.hasInternal, r.hasAuth, r.limit, r.limitSub)
 
 		// ---- requests ----
 		nconn := 1 + st.Draw(4)
@@ -635,6 +692,7 @@ func (r *siteRig) genReq(id, site string) *sreq {
 			sc.flush = append(sc.flush, pick(25))
 		}
 		sc.setCL = pick(40)
+		sc.retErr = pick(12)
 		if sc.status == 204 || sc.status == 304 {
 			sc.writes, sc.flush = nil, nil
 			sc.explicit = true
@@ -918,7 +976,7 @@ func (r *siteRig) dirSig() string {
 	for _, p := range []struct {
 		n string
 		b bool
-	}{{"log", r.hasLog}, {"gzip", r.hasGzip}, {"errors", r.hasErrors}, {"header", r.hasHeader}, {"limits", r.limit > 0}, {"request_id", r.hasReqID}} {
+	}{{"log", r.hasLog}, {"gzip", r.hasGzip}, {"errors", r.hasErrors}, {"header", r.hasHeader}, {"limits", r.limit > 0}, {"request_id", r.hasReqID}, {"templates", r.hasTemplates}, {"errors-visible", r.errVisible}} {
 		if p.b {
 			on = append(on, p.n)
 		}
@@ -1065,6 +1123,18 @@ func (r *siteRig) judgeCompression(q *sreq, resp *sim.Resp, dec []byte, derr err
 	if strings.Contains(ce, "gzip") && !offersGzip && tw != nil && !strings.Contains(twCE, "gzip") && !strings.Contains(q.script.preCE, "gzip") {
 		c.Violate("C18/gzip-not-offered", sig, "request %s (%s): the client did not offer gzip (Accept-Encoding %q) but the response is gzip-coded", q.id, q.path, q.ae)
 	}
+	if q.script.mode == "static" && ce != "" {
+		offered := false
+		for _, a := range strings.Split(q.ae, ",") {
+			if strings.TrimSpace(strings.SplitN(a, ";", 2)[0]) == ce {
+				offered = true
+			}
+		}
+		if !offered {
+			c.Violate("C18/coding-not-offered", fmt.Sprintf("ce=%q", ce), "request %s (%s, siblings %v): the client offered Accept-Encoding %q but the response is %q-coded", q.id, q.path, r.siblings[q.path], q.ae, ce)
+		}
+		c.Probe("precompressed-sibling-served")
+	}
 	if tw == nil {
 		return
 	}
@@ -1159,20 +1229,24 @@ func (r *siteRig) judgeLog(lines []string) {
 			qv = u
 		}
 		ck := strings.TrimPrefix(hv("Cookie"), "ck=")
-		size := len(q.resp.Body)
-		want := fmt.Sprintf("R=%s S=%d Z=%d M=%s U=%s E=%s Q=%s C=%s L={lit} N=- H=s.test", q.id, q.resp.Status, size, q.method, uri, dash(hv("X-Evil")), dash(qv), dash(ck))
+		want := "R=" + q.id
+		var names []string
+		for _, f := range r.frags {
+			want += " " + f.eval(q, uri, dash(hv("X-Evil")), dash(qv), dash(ck))
+			names = append(names, f.name)
+		}
 		if got[0] != want {
 			field := "other"
-			for _, f := range []string{" S=", " Z=", " E=", " Q=", " C=", " L=", " N=", " U="} {
-				if fieldOf(got[0], f) != fieldOf(want, f) {
-					field = strings.TrimSpace(f)
+			for _, f := range r.frags {
+				if !strings.Contains(got[0], f.eval(q, uri, dash(hv("X-Evil")), dash(qv), dash(ck))) {
+					field = f.name
 					break
 				}
 			}
-			if field == "Z=" && q.method == "HEAD" {
-				field = "Z=/HEAD"
+			if field == "Z" && q.method == "HEAD" {
+				field = "Z/HEAD"
 			}
-			c.Violate("C20/line-differs", field, "request %s: access log line\n   got  %q\n   want %q\n (%s)", q.id, got[0], want, r.dirSig())
+			c.Violate("C20/line-differs", field, "request %s: access log line\n   got  %q\n   want %q\n (format fragments %v; %s)", q.id, got[0], want, names, r.dirSig())
 		}
 		c.Probe("log-line-checked")
 	}
